@@ -22,6 +22,15 @@ type item struct {
 	key string
 }
 
+// idOf names a value handed out by the cache; 0 stands for the zero value, which no
+// create function of this world ever produces.
+func idOf(v *item) int {
+	if v == nil {
+		return 0
+	}
+	return v.id
+}
+
 type ekey struct {
 	A string
 	B int
@@ -46,7 +55,7 @@ func (p plainCache) Get(k string) (int, error) {
 	if err != nil {
 		return 0, err
 	}
-	return v.id, nil
+	return idOf(v), nil
 }
 func (p plainCache) Remove(k string) bool { return p.c.Remove(k) }
 func (p plainCache) Clear() int           { return p.c.Clear() }
@@ -64,7 +73,7 @@ func (p eCache) Get(k string) (int, error) {
 	if err != nil {
 		return 0, err
 	}
-	return v.id, nil
+	return idOf(v), nil
 }
 func (p eCache) Remove(k string) bool { return p.c.Remove(ekey{A: k, B: p.w.variant()}) }
 func (p eCache) Clear() int           { return p.c.Clear() }
@@ -104,7 +113,7 @@ func (p mCache) Get(k string) (int, error) {
 	if err != nil {
 		return 0, err
 	}
-	return v.id, nil
+	return idOf(v), nil
 }
 func (p mCache) Remove(k string) bool { return p.c.Remove(p.key(k)) }
 func (p mCache) Clear() int           { return p.c.Clear() }
@@ -121,7 +130,7 @@ func (p expCache) Get(k string) (int, error) {
 	if err != nil {
 		return 0, err
 	}
-	return v.Value.id, nil
+	return idOf(v.Value), nil
 }
 func (p expCache) Remove(k string) bool { return p.c.Remove(k) }
 func (p expCache) Clear() int           { return p.c.Clear() }
@@ -166,7 +175,11 @@ type world struct {
 	curOp   string
 	delInCR int
 	panicAt map[int]bool
-	abandon bool
+	// create functions that panic (seqp): planned "key#attempt"s, and the keys whose creation
+	// ended that way (a later call for such a key creates it afresh)
+	cpanicAt map[string]bool
+	poisoned map[string]bool
+	abandon  bool
 	c       *sim.Case
 	e       *sim.Env
 	mode    string
@@ -239,7 +252,11 @@ func (w *world) load(k string) (*item, time.Duration, error) {
 	var err error
 	if w.failAt[tag] {
 		err = errLoader
-		e.FaultFired("create_function_failed")
+		if w.cpanicAt[tag] {
+			e.FaultFired("create_function_panicked")
+		} else {
+			e.FaultFired("create_function_failed")
+		}
 	} else {
 		w.nextID++
 		it = &item{id: w.nextID, key: k}
@@ -252,6 +269,14 @@ func (w *world) load(k string) (*item, time.Duration, error) {
 	}
 	w.inProg[k]--
 	e.Logf("load %s -> %v", tag, err == nil)
+	if w.cpanicAt[tag] {
+		// a creation that fails by panicking; the caller recovers
+		if w.poisoned == nil {
+			w.poisoned = map[string]bool{}
+		}
+		w.poisoned[k] = true
+		panic(cbPanic{})
+	}
 	return it, w.ttlFor[tag], err
 }
 
@@ -266,7 +291,9 @@ func (w *world) onDelete(k string, id int) {
 	if w.deleted[id] > 1 {
 		w.e.Violate(w.delProp(), "deleted_twice", "the delete callback ran %d times for value #%d of key %q", w.deleted[id], id, k)
 	}
-	if ck, ok := w.created[id]; !ok || ck != k {
+	if ck, ok := w.created[id]; id == 0 {
+		w.e.Violate(w.delProp(), "delete_wrong_args", "the delete callback got key %q with the zero value, which no create function produced", k)
+	} else if !ok || ck != k {
 		w.e.Violate(w.delProp(), "delete_wrong_args", "the delete callback got key %q with value #%d, which was created for key %q", k, id, ck)
 	}
 	if w.mode == "seqp" && (w.curOp == "clear" || w.curOp == "remove") {
@@ -301,6 +328,12 @@ func (w *world) Setup(e *sim.Env) {
 			w.ttlFor[fmt.Sprintf("%s#%d", f.Node, f.Ord)] = time.Duration(f.D)
 		case "sleep":
 			w.loaderSleep[fmt.Sprintf("%s#%d", f.Node, f.Ord)] = time.Duration(f.D)
+		case "cpanic":
+			if w.cpanicAt == nil {
+				w.cpanicAt = map[string]bool{}
+			}
+			w.cpanicAt[fmt.Sprintf("%s#%d", f.Node, f.Ord)] = true
+			w.failAt[fmt.Sprintf("%s#%d", f.Node, f.Ord)] = true
 		case "panic":
 			if w.panicAt == nil {
 				w.panicAt = map[int]bool{}
@@ -315,7 +348,7 @@ func (w *world) Setup(e *sim.Env) {
 		c, err = glru.NewCache[string, *item](w.capa, func(k string) (*item, error) {
 			it, _, err := w.load(k)
 			return it, err
-		}, func(k string, v *item) { w.onDelete(k, v.id) })
+		}, func(k string, v *item) { w.onDelete(k, idOf(v)) })
 		w.cache = plainCache{c}
 	case 1:
 		var c *glru.ECache[ekey, string, *item]
@@ -326,10 +359,10 @@ func (w *world) Setup(e *sim.Env) {
 			}
 			return it, err
 		}, func(k ekey, v *item) {
-			if pk, ok := w.createdPK[v.id]; ok && pk != k {
+			if pk, ok := w.createdPK[idOf(v)]; ok && pk != k {
 				e.Violate(w.delProp(), "delete_wrong_args", "the delete callback got key %v for value #%d, but that entry was created with key %v (the caller used an alias that maps to the same inner key)", k, v.id, pk)
 			}
-			w.onDelete(k.A, v.id)
+			w.onDelete(k.A, idOf(v))
 		})
 		w.cache = eCache{c, w}
 	case 3:
@@ -339,6 +372,10 @@ func (w *world) Setup(e *sim.Env) {
 			return it, err
 		}, func(k *mkey, v *item) {
 			// the stored key object has been overwritten since: the entry is identified by its value
+			if v == nil {
+				w.onDelete(k.A, idOf(v))
+				return
+			}
 			w.onDelete(w.created[v.id], v.id)
 		})
 		w.cache = mCache{c, w}
@@ -365,7 +402,7 @@ func (w *world) Setup(e *sim.Env) {
 			}
 			w.expiry[it.id] = exp
 			return glru.NewCacheItem(it, exp), nil
-		}, func(k string, v glru.ExpirableItem[*item]) { w.onDelete(k, v.Value.id) })
+		}, func(k string, v glru.ExpirableItem[*item]) { w.onDelete(k, idOf(v.Value)) })
 		w.cache = expCache{c}
 	}
 	if err != nil {
@@ -416,7 +453,11 @@ func (w *world) doOpPanicky(name string, op sim.Op) {
 					panic(v)
 				}
 				res = "panicked"
-				e.Probe("call_ended_by_panicking_delete_callback")
+				if op.K == "get" && w.poisoned[op.S] {
+					e.Probe("call_ended_by_panicking_create_function")
+				} else {
+					e.Probe("call_ended_by_panicking_delete_callback")
+				}
 			}
 		}()
 		switch op.K {
@@ -424,6 +465,9 @@ func (w *world) doOpPanicky(name string, op sim.Op) {
 			id, err := w.cache.Get(op.S)
 			if err != nil && !errors.Is(err, errLoader) {
 				e.Violate(w.prop(), "unexpected_error", "GetOrCreate(%q) returned %v", op.S, err)
+			}
+			if err == nil && w.created[id] != op.S {
+				e.Violate(w.delProp(), "value_never_created", "GetOrCreate(%q) returned value #%d with a nil error, but no create function produced it for that key", op.S, id)
 			}
 			if err == nil && w.deleted[id] > 0 {
 				// "the delete callback runs ... never for a resident one": a value the callback has
@@ -493,7 +537,19 @@ func (w *world) doOp(idx int, name string, op sim.Op) {
 			// bulk filling (big populations): plain calls, no scheduling points inside
 			zsimrt.Unchecked(func() { id, err = w.cache.Get(op.S) })
 		} else {
-			id, err = w.cache.Get(op.S)
+			func() {
+				defer func() {
+					if v := recover(); v != nil {
+						if _, ok := v.(cbPanic); !ok {
+							panic(v)
+						}
+						// the create function panicked and the caller recovered: a failed creation
+						e.Probe("call_ended_by_panicking_create_function")
+						err = errLoader
+					}
+				}()
+				id, err = w.cache.Get(op.S)
+			}()
 		}
 		switch {
 		case err != nil && errors.Is(err, errLoader):
